@@ -4,7 +4,7 @@
 (* XPath 3.1 (property C18).                                               *)
 (*                                                                         *)
 (*   Matches  = XPath 3.1 section 2.5.5  (SequenceType Matching)           *)
-(*   Subtype   = XPath 3.1 section 2.5.6.1 (the judgement subtype(A,B))      *)
+(*   Subtype  = XPath 3.1 section 2.5.6.1 (the judgement subtype(A,B))     *)
 (*   SubItem  = XPath 3.1 section 2.5.6.2 (subtype-itemtype(Ai,Bi)), rule   *)
 (*              numbers quoted in the comments                              *)
 (*   Parent   = XML Schema part 2 section 3 (built-in datatype hierarchy)   *)
@@ -20,6 +20,10 @@
 (* so behaviours are chains such as (($v treat as S) instance of T).        *)
 (* Universe members are addressed by their index in TypeSeq / ValueSeq      *)
 (* (printed once by TLC), so the dumped graph stays small.                  *)
+(* The check generates two modules that EXTEND this one (engine/props/      *)
+(* c18.py): Impl_C18 (the implementation's relations and signature table    *)
+(* as literal constants: laws on the exported data, ArgsFor / call plan)    *)
+(* and Obs_C18 (projected call results judged by MatchSeq).                 *)
 (*                                                                         *)
 (* A sequence type is  [it |-> ItemType, occ |-> "1" | "?" | "*" | "+"]  or *)
 (* Empty = empty-sequence().  Item types and items are tagged records, see  *)
@@ -389,4 +393,5 @@ TreatLaw == [][acc'.kind = "bool" \/ acc' = acc \/ acc' = Err("XPDY0050")]_vars
 (* printed once: the universe the indices refer to *)
 ASSUME PrintT(<<"types", TypeSeq>>)
 ASSUME PrintT(<<"values", ValueSeq>>)
+ASSUME PrintT(<<"ambiguous", Cardinality(UNION {{<<v, j>> : j \in AmbRow[v]} : v \in 1..NV})>>)
 =============================================================================
